@@ -388,6 +388,64 @@ def _assign_chunk(params, lo, hi):
     return r
 
 
+def large_assignments():
+    """assignment matrices with 11 to 13 rows or columns (two-digit indices) whose optimum is known by construction:
+    a zero at one planted position per row (a permutation) and strictly positive entries elsewhere -> optimum 0"""
+    out = []
+    for n, m in ((1, 11), (11, 1), (11, 11), (12, 13), (13, 12)):
+        k = min(n, m)
+        for shift in (0, 1, 10):
+            mat = [[1 + ((3 * i + 5 * j) % 7) for j in range(m)] for i in range(n)]
+            if n <= m:
+                plant = {i: (m - 1 - i + shift) % m for i in range(n)}
+            else:
+                cols = {j: (n - 1 - j + shift) % n for j in range(m)}
+                plant = {r: j for j, r in cols.items()}
+            for i, j in plant.items():
+                mat[i][j] = 0
+            out.append((mat, k))
+    return out
+
+
+def _large_assign_chunk(params, lo, hi):
+    from solvor.flow import solve_assignment
+
+    cases = large_assignments()
+    r = new_result()
+    for idx in range(lo, hi):
+        mat, k = cases[idx]
+        wit = {"cost_matrix": mat, "large": True}
+        r["n"] += 1
+        r["nontrivial"] += 1
+
+        def call():
+            try:
+                return solve_assignment([list(x) for x in mat]), None
+            except Exception as ex:  # noqa: BLE001
+                return None, f"{type(ex).__name__}: {ex}"
+
+        got, verdict = guarded(call, 10.0, 50_000_000)
+        if verdict:
+            r["violations"].append(viol("solve_assignment", "nontermination", wit, f"solve_assignment({len(mat)}x{len(mat[0])} planted matrix) did not return"))
+            continue
+        res, err = got
+        if err:
+            r["violations"].append(viol("solve_assignment", "raised", wit, f"solve_assignment({len(mat)}x{len(mat[0])} planted matrix): {err}"))
+            continue
+        a = res.solution
+        used = [x for x in a if x != -1] if isinstance(a, list) else None
+        r["outcomes"]["solve_assignment_large:" + res.status.name] += 1
+        if used is None or len(a) != len(mat) or len(set(used)) != len(used) or len(used) != k or any(x < -1 or x >= len(mat[0]) for x in a):
+            r["violations"].append(viol("solve_assignment", "not_a_matching", wit, f"solve_assignment on {mat}: assignment {a} is not a matching of size {k}"))
+            continue
+        tot = sum(mat[i][a[i]] for i in range(len(mat)) if a[i] != -1)
+        if tot != 0 or abs(res.objective) > 1e-9:
+            r["violations"].append(viol("solve_assignment", "not_optimal", wit, f"solve_assignment on {mat}: assignment {a} costs {tot} (objective {res.objective}), the planted matching costs 0"))
+        if not r["samples"]:
+            r["samples"].append({"rows": len(mat), "cols": len(mat[0])})
+    return r
+
+
 def jobs(tier, seed):
     js = []
     full = ((0, 1, 2), (-1, 0, 1, 2))
@@ -399,6 +457,7 @@ def jobs(tier, seed):
         js.append(Job(f"n4_arcsets_{k}", comb(12, k) * (2 * len(cs)) ** k, _n4_chunk, (k, (1, 2), cs), describe=f"k distinct ordered pairs on 4 nodes, caps {{1,2}}, costs {cs}; both list orders"))
     for k in (4, 5, 6):
         js.append(Job(f"n5_layered_{k}arcs_unit_costs012", comb(len(L5_PAIRS), k) * 3**k, _layered5_chunk, k, describe="5 nodes, source out-arcs only, sink in-arcs only, k unit-capacity arcs with costs {0,1,2}, demand 1 and 2, two dict orders: the smallest networks on which Bellman-Ford needs a sweep that only lowers labels"))
+    js.append(Job("assignment_large_planted", len(large_assignments()), _large_assign_chunk, None, chunk=1, describe="1x11, 11x1, 11x11, 12x13, 13x12 matrices with a planted zero-cost matching (two-digit row/column indices)"))
     for rows in (1, 2, 3):
         for cols in (1, 2, 3):
             js.append(Job(f"assignment_{rows}x{cols}", 4 ** (rows * cols), _assign_chunk, (rows, cols), describe="solve_assignment on all matrices over {-1,0,1,2}"))
@@ -435,6 +494,13 @@ def replay(v):
             res, err = None, f"{type(ex).__name__}: {ex}"
         errs, _ = judge_result("min_cost_flow", res, err, 5, arcs, sup, oracle_table(5, arcs))
         return {"function": "min_cost_flow", "kind": errs[0][0], "detail": errs[0][1]} if errs else None
+    if v["function"] == "solve_assignment" and w.get("large"):
+        cases = large_assignments()
+        for i, (mat, _) in enumerate(cases):
+            if mat == w["cost_matrix"]:
+                rr = _large_assign_chunk(None, i, i + 1)
+                return rr["violations"][0] if rr["violations"] else None
+        return None
     if v["function"] == "solve_assignment":
         m = w["cost_matrix"]
         rows, cols = len(m), len(m[0])
